@@ -93,6 +93,9 @@ func genC11(t *rapid.T) CaseC11 {
 	}
 	c.AFFlags = rapid.Bool().Draw(t, "af-flags")
 	c.PID = int(genBits(t, 13, "pid"))
+	if c.PID == 0x1FFF {
+		c.PID = 0x1FFE // a null packet carries no PES (and has no unit start): a reader may ignore it
+	}
 	c.CC = rapid.IntRange(0, 15).Draw(t, "cc")
 	c.TailFill = rapid.Byte().Draw(t, "tail")
 	return c
